@@ -60,7 +60,15 @@ fn base(rng: &mut Rng, prop: &str, family: &str, seed: u64, nthreads: usize) -> 
 
 /// setup: P (class 1) -> X (class 2); ROOT[1] = P; optionally ROOT[0] = X, WROOT[0] = weak X
 fn setup_parent_child(x_in_root0: bool, weak_in_wroot0: bool) -> Vec<Op> {
+    setup_parent_child_ext(x_in_root0, weak_in_wroot0, false)
+}
+
+/// `prestamp`: X gets a real (and soon old) stamp in its count word: an extra owner is dropped now
+fn setup_parent_child_ext(x_in_root0: bool, weak_in_wroot0: bool, prestamp: bool) -> Vec<Op> {
     let mut v = vec![o(K::New, 0, NONE_SLOT, 1, 0), o(K::New, 1, NONE_SLOT, 2, 0), o(K::Pin, 0, 0, 0, 0)];
+    if prestamp {
+        v.extend([o(K::Clone, 1, 3, 0, 0), o(K::DropRc, 3, 0, 0, 0)]);
+    }
     if weak_in_wroot0 {
         v.push(o(K::Downgrade, 1, 0, 0, 0));
         v.push(o(K::StoreW, WROOT0, 0, 0, 0));
@@ -127,7 +135,8 @@ pub fn t2(prop: &str, seed: u64) -> RunDesc {
     let mut rng = Rng::new(seed);
     let mut d = base(&mut rng, prop, "dir-t2", seed, 5);
     let source = rng.below(5);
-    d.threads.push(thread(0, "setup", setup_parent_child(source == 3, true)));
+    let prestamp = rng.chance(0.4);
+    d.threads.push(thread(0, "setup", setup_parent_child_ext(source == 3, true, prestamp)));
     // optional ageing of the link before the parent is retired
     let age = rng.below(6) as usize;
     d.threads.push(thread(1, "age", rounds(age)));
@@ -198,7 +207,7 @@ pub fn t2(prop: &str, seed: u64) -> RunDesc {
         let n = noise(&mut rng, 2, &d.cfg);
         d.threads.push(n);
     }
-    d.params = J::obj().set("template", "T2 reader pinned across a cascade").set("snapshot_source", source).set("link_age_rounds", age).set("rounds_before_reader", m).set("rounds_after", m2).set("reader_first", reader_first);
+    d.params = J::obj().set("template", "T2 reader pinned across a cascade").set("child_prestamped", prestamp).set("snapshot_source", source).set("link_age_rounds", age).set("rounds_before_reader", m).set("rounds_after", m2).set("reader_first", reader_first);
     d
 }
 
@@ -357,7 +366,31 @@ pub fn t7(prop: &str, seed: u64) -> RunDesc {
     if rng.chance(0.5) {
         d.threads.push(thread(2, "ticker", rounds(2 + rng.below(6) as usize)));
     }
-    d.params = J::obj().set("template", "T7 weak increment from zero").set("readers", nreaders).set("strong_alive", strong_alive);
+    // hand-off variant: a Weak re-counted from zero is parked in WROOT[1]; k epochs later a second
+    // reader takes a WeakSnapshot of it, releases it (weak 2 -> 1: the leftover token) and stays
+    // pinned while the try_dealloc that was pending all along comes due
+    let handoff = rng.chance(0.4);
+    if handoff {
+        for t in d.threads.iter_mut() {
+            if t.name == "reader" {
+                // park the surviving Weak (slot 2) instead of using it further
+                if let Some(pos) = t.ops.iter().position(|x| x.k == K::Unpin) {
+                    t.ops.truncate(pos + 1);
+                }
+                t.ops.extend([o(K::Pin, 0, 0, 0, 0), o(K::StoreW, 10, 2, 0, 0), o(K::Unpin, 0, 0, 0, 0), o(K::Signal, 7, 0, 0, 0)]);
+                break;
+            }
+        }
+        let mut r2 = vec![o(K::Await, 7, 0, 0, 0)];
+        r2.extend(rounds(rng.below(5) as usize));
+        r2.extend([o(K::Pin, 0, 0, 0, 0), o(K::LoadW, 10, 0, 0, 0), o(K::StoreW, 10, NONE_SLOT, 0, 0), o(K::Signal, 8, 0, 0, 0), o(K::Await, 9, 0, 0, 0), o(K::WsCounted, 0, 0, 0, 0), o(K::DropW, 0, 0, 0, 0), o(K::Unpin, 0, 0, 0, 0)]);
+        d.threads.push(thread(2, "second-reader", r2));
+        let mut t2 = vec![o(K::Await, 8, 0, 0, 0)];
+        t2.extend(rounds(2 + rng.below(5) as usize));
+        t2.push(o(K::Signal, 9, 0, 0, 0));
+        d.threads.push(thread(2, "late-ticker", t2));
+    }
+    d.params = J::obj().set("template", "T7 weak increment from zero").set("handoff", handoff).set("readers", nreaders).set("strong_alive", strong_alive);
     d
 }
 
